@@ -43,6 +43,9 @@ CHECKS = {
   "C16": dict(level="model_checking", design="3.3, 4 (C16)",
       text="MxDtls (two endpoints, flights with message_seq, epochs, per-epoch record acceptance, timer- and repetition-driven retransmission that opens a new epoch for a re-sent Finished, a network that drops / duplicates / reorders within budgets) is model-checked for AppOnce, HsMonotone, DoneMeansPeerFinished and, under weak fairness of delivery and timers, completion. Real DTLS 1.0/1.2 sessions (RSA, ECDHE-RSA, ECDHE-ECDSA, PSK, resumed, client auth, PMTU 512/300 forcing fragmentation) are driven through datagram schedules - exhaustive over {deliver, drop, duplicate}^n for the first datagrams of the short handshakes, random over five decisions, whole-flight losses - followed by healing, application data, replays of every captured record and more application data; every execution is validated by MxDtls_Trace (a protected record passes the record layer once, an application record reaches the application once, handshake state never regresses, both sides complete and all later application records arrive) and by MxSession_Trace.",
       technique="TLA+ spec MxDtls checked by TLC (safety + liveness under fairness) + trace validation of scheduled DTLS executions (MxDtls_Trace, MxSession_Trace)"),
+  "C07": dict(level="model_checking", design="3.4, 4 (C07)",
+      text="MxNegotiate (client and server configurations over 3 versions x 4 suites x 2 groups with key shares and SCSV, the server's choice procedure, a man in the middle with 8 kinds of single-field hello rewrites) is model-checked over all 4.7 million configuration pairs x edits for BothEnabled, HighestVersion and FallbackRefused. Real handshakes are run for all 49 pairs of non-empty version sets (with and without SCSV), suite and group restrictions incl. HelloRetryRequest flows, and with one-byte in-flight rewrites of ClientHello, ServerHello, HelloRetryRequest and the second ClientHello at a spread of offsets (every third byte / every byte of the HRR flow in the thorough tier); MxNegotiate_Trace judges each: completed => version, suite, group enabled by both, version the highest both can run, identical parameters and master secret on both sides, no completion after any rewrite or unjustified fallback.",
+      technique="TLA+ spec MxNegotiate checked by TLC + trace validation of configured handshakes and hello rewrites (MxNegotiate_Trace, MxSession_Trace)"),
   "C05": dict(level="model_checking", design="3.6, 4 (C05)",
       text="MxName states the matching rule (exact case-insensitive match per kind, '*' for exactly one left-most label, CN only without supported SAN); TLC tabulates it over a universe of patterns x expected names and checks order independence, CN-only-without-SAN and one-label wildcards as invariants. Real leaf certificates with generated SAN lists (0-3 entries from a pool with wildcards in every position, partial wildcards, case variants, trailing dots, control characters, trailing/double/embedded NULs, e-mail, IP, URI entries; every order of sampled pairs/triples) x CN choices are run through matrixValidateCertsExt for each expected name of a grammar, and every verdict is validated by TLC against Match (soundness; completeness on names without trailing dot).",
       technique="TLA+ spec MxName checked by TLC + validation of the library's verdicts on generated certificates (MxName_Trace)"),
@@ -59,7 +62,9 @@ RES_NOTE = ("Trusted base: TLC; fingerprints (32-bit FNV) of master secret, sess
             "Model bounds: 2 clients, table of 1 (quick) or 2 (thorough) entries, 3-4 session states, lifetime 1 tick, 1 edit/theft, one parameter dimension per config. Not modelled: multi-process servers sharing ticket keys, TLS 1.3 external PSKs.")
 DTLS_NOTE = ("Trusted base: TLC; the driver's queues as the datagram network (no byte is altered); timers fired by the driver for endpoints that have sent a flight and are not complete; record-layer pass events from the guarded hook. "
              "Model bounds: 2 drops, 2 duplications, 2 retransmissions, 1 application record per side (safety); 2 drops, 3 retransmissions (liveness). Cookie exchange and fragmentation are exercised on the implementation only.")
-NOTES = {"C16": DTLS_NOTE, "C14": RES_NOTE, "C04": AUTH_NOTE, "C05": NAME_NOTE, "C01": SESSION_NOTE, "C06": SESSION_NOTE, "C15": SESSION_NOTE, "C02": CHAN_NOTE, "C17": CHAN_NOTE, "C03": PKI_NOTE}
+NEGO_NOTE = ("Trusted base: TLC; the generator's configuration records; the driver's byte rewrite. Versions are passed to the API highest first (its default preference order). "
+             "Signature algorithm choice and TLS <= 1.2 ECDHE group choice are observed but not judged; extended-master-secret negotiation is judged only through equality on both sides; DTLS is excluded from rewrites.")
+NOTES = {"C07": NEGO_NOTE, "C16": DTLS_NOTE, "C14": RES_NOTE, "C04": AUTH_NOTE, "C05": NAME_NOTE, "C01": SESSION_NOTE, "C06": SESSION_NOTE, "C15": SESSION_NOTE, "C02": CHAN_NOTE, "C17": CHAN_NOTE, "C03": PKI_NOTE}
 
 def main():
     hooks_commits = subprocess.run(["git", "-C", "/repo", "log", "--format=%h %s", "--grep=^verif:"], capture_output=True, text=True).stdout.strip().splitlines()
